@@ -3,7 +3,7 @@
    definitions through the extracted driver, and the theorems' hypotheses can be checked on examples. *)
 From Coq Require Import List NArith ZArith Bool Arith.
 From Coq Require Import Strings.Byte.
-Require Import CU.model.Prim CU.model.Types CU.model.Unicode CU.model.Codec CU.model.Card CU.model.Dates CU.model.Iso.
+Require Import CU.model.Prim CU.model.Types CU.model.Unicode CU.model.Regex CU.model.Codec CU.model.Card CU.model.Dates CU.model.Iso.
 Import ListNotations.
 
 (* ------------------------------------------------------------------ configurations *)
@@ -16,6 +16,13 @@ Definition date_width (fmt : str) : option nat :=
   | None => None
   end.
 
+(* the merchant-field processor splits TEXT with a pattern: on an int / datetime element it is admissible only without a
+   pattern (then it does nothing; with one, re.match raises TypeError) *)
+Definition de43_noneb (d : de43cfg) : bool := match d with D43None => true | _ => false end.
+Definition de43_modelledb (d : de43cfg) : bool := match d with D43Unsupported => false | _ => true end.
+Definition de43_for_text (c : fieldcfg) : bool :=
+  match f_proc c with PDE43 => de43_noneb (f_de43 c) | _ => true end.
+
 (* an element configuration the library handles consistently in both directions *)
 Definition wf_fieldb (c : fieldcfg) : bool :=
   match f_len c with
@@ -25,11 +32,13 @@ Definition wf_fieldb (c : fieldcfg) : bool :=
     | PTDec => false                                               (* decimal: oracle only, not modelled *)
     | PTStr => match f_proc c with
                | PICC | PPDS => is_var (f_type c)
+               | PDE43 => de43_modelledb (f_de43 c)                (* a splitting pattern inside the modelled regex fragment *)
                | _ => true
                end
-    | PTInt => match f_proc c with PNone | PDE43 => true | _ => false end
+    | PTInt => match f_proc c with PNone => true | PDE43 => de43_noneb (f_de43 c) | _ => false end
     | PTDate => match f_proc c with
-                | PNone | PDE43 => match date_width (f_datefmt c) with
+                | PNone | PDE43 => de43_for_text c &&
+                                   match date_width (f_datefmt c) with
                                    | Some w => is_var (f_type c) || Nat.eqb n w
                                    | None => false
                                    end
@@ -140,11 +149,16 @@ Definition expected (cfg : cfgT) (k : key) (v : value) : value :=
   | _, _ => v
   end.
 
-(* the documented derived keys (DE43_* entries are not produced by the model at all) *)
+(* the documented derived keys: PDS carriers, PDSxxxx, TAGxxxx, ICC_DATA, and the named groups of the splitting pattern
+   of an element with the DE43 processor (DE43_*: the translator refuses patterns with other group names) *)
+Definition de43_key (cfg : cfgT) (s : str) : bool :=
+  existsb (fun bc => proc_eqb (f_proc (snd bc)) PDE43 &&
+                     match f_de43 (snd bc) with D43Re p => existsb (str_eqb s) (regex_groups p) | _ => false end) cfg.
 Definition derived_key (cfg : cfgT) (k : key) : bool :=
   match k with
   | KDE n => match cfg_get cfg n with Some c => proc_eqb (f_proc c) PPDS | None => false end
   | KPDS _ | KTAG _ | KICC => true
+  | KOther s => de43_key cfg s
   | _ => false
   end.
 
